@@ -77,6 +77,23 @@ def run(tier):
                                         pf_argmax_ok=True, id=-1)]))
         elif x["status"] != "ok":
             rep.note("stock case %s: EIG not observed (%s)" % (c, x["status"] if x["status"] != "exc" else x.get("error", "").strip().splitlines()[-1][:120]))
+    # parameter sweeps (EIG.sweep): every sweep point against a fresh System carrying that value
+    sw = [dict(case="kundur/kundur_full.json", param="GENROU.M"), dict(case="kundur/kundur_full.json", param="GENROU.M", run_first=False),
+          dict(case="kundur/kundur_full.json", param="EXDC2.TA"), dict(case="ieee14/ieee14_full.xlsx", param="TGOV1.T1")]
+    if not quick:
+        sw += [dict(case="kundur/kundur_full.json", param="GENROU.D", tol=1e-5), dict(case="ieee14/ieee14_full.xlsx", param="GENROU.Td10"),
+               dict(case="wscc9/wscc9.xlsx", param="GENCLS.M"), dict(case="ieee14/ieee14_solar.xlsx", param="REGCA1.Tg")]
+    for t, x in zip(sw, run_tasks("vh.eigdrv:sweep_case", sw, nproc=NCPU, timeout=900)):
+        sid = "sweep:%s|%s%s" % (t["case"], t["param"], "" if t.get("run_first", True) else "|no run first")
+        if x["status"] != "ok" or "skipped" in x["result"]:
+            rep.note("%s not observed (%s)" % (sid, x["status"] if x["status"] != "ok" else x["result"]["skipped"]))
+            continue
+        r_ = x["result"]
+        rep.count()
+        traces.append(dict(meta=dict(tid=len(traces) + 1, sid=sid),
+                           ev=[dict(raised=bool(r_.get("raised")), shape_ok=True, as_ok=True, count_ok=True, roots_ok=bool(r_["ok"]), names_ok=True,
+                                    counts_partition=True, counts_ok=True, pf_nonneg=True, pf_sum_ok=True, pf_argmax_ok=True, id=-1)]))
+        rep.extra.setdefault("sweeps", {})[sid] = dict(worst=r_.get("worst"), detail=r_.get("detail"))
     verdicts, tl = tracecheck.validate(traces, "Trace_Eig")
     for t in tl:
         rep.add_tlc(t, "Trace_Eig")
